@@ -86,10 +86,13 @@ CHECKS = {
         "repaired by fix: commits, as is the forgotten current_basis_operator after a nested context. Validated only: eigh returns "
         "a diagonalising S (monitored: operator diagonal and ascending inside its context).",
    note=TB + "All C04 theorems closed under the global context. Tie: random programs on the real Operator/SelfAdjointOperator/"
-        "SuperOperator classes with exact signed-permutation eigenbases compared inside Coq (reads, final tags/protection/raw data, "
-        "registration lists, depth); float monitors for real symmetric, degenerate, complex Hermitian operators (1e-9). Objects "
-        "protected inside a context are re-tagged, not transformed (by design) and are excluded from the restoration claim. "
-        "DensityMatrixEvolution/StateVectorEvolution/operator-form tensors are covered by the action laws only.",
+        "SuperOperator, Hamiltonian, ReducedDensityMatrix, TransitionDipoleMoment, RelaxationTensor (4- and 5-index), "
+        "TDRedfieldRelaxationTensor (tensor form), DensityMatrixEvolution and StateVectorEvolution classes (each with its own "
+        "transform() code) with exact signed-permutation eigenbases compared inside Coq (reads, final tags/protection/raw data, "
+        "registration lists, depth); float monitors for real symmetric, degenerate, diagonal-unsorted and complex Hermitian operators "
+        "(1e-9). Objects protected inside a context are re-tagged, not transformed (by design) and are excluded from the restoration "
+        "claim. Evolutions do not tag themselves on creation and are created outside contexts only; operator-form tensors are covered "
+        "by the action laws and by C07.",
    design="7/C04", technique="Coq proof (state-machine invariant by induction over program trees; ring algebra for the actions) + in-Coq differential correspondence"),
  "C01": dict(
    text="Proved in Coq over any commutative *-ring, for every dimension, every number of bath components and (index by index) every "
